@@ -317,6 +317,7 @@ class Text(JupyterMixin):
     @plain.setter
     def plain(self, new_text: str) -> None:
         """Set the text to a new value."""
+        new_text = strip_control_codes(new_text)
         if new_text != self.plain:
             self._text[:] = [new_text]
             old_length = self._length
@@ -846,6 +847,7 @@ class Text(JupyterMixin):
         _Span = Span
         offset = len(self)
         for content, style in tokens:
+            content = strip_control_codes(content)
             append_text(content)
             if style is not None:
                 append_span(_Span(offset, offset + len(content), style))
